@@ -14,7 +14,7 @@ func init() {
 func c18(tier string) int {
 	plans := []enum.Plan{{Family: "list-subsets"}, {Family: "list-long"}, {Family: "list-ops", Params: "depth=8"}, {Family: "list-drain", Params: "maxn=140"}}
 	if tier == "thorough" {
-		plans = []enum.Plan{{Family: "list-subsets"}, {Family: "list-long"}, {Family: "list-ops", Params: "depth=10"}, {Family: "list-drain", Params: "maxn=300"}}
+		plans = []enum.Plan{{Family: "list-subsets"}, {Family: "list-long"}, {Family: "list-ops", Params: "depth=9"}, {Family: "list-drain", Params: "maxn=300"}}
 	}
 	return enumCheck("C18", tier, 90*time.Second, 25*time.Minute, plans,
 		"(a) all 4096 subsets of a 12-element sequence domain as version lists: Latest, LastBefore at all 28 probe points, IterateBeforeSeq at all horizons, and for every horizon the production collect pattern (PopFront inside the iteration) followed by all lookups again, with and without the search array; (b) all operation sequences of the stated depth over push, push-with-gap, pop-front, pop-back and collect at three horizons with all lookups compared after every step; (c) deterministic long lists (1..64, 1000, 4096 elements) probed at and around every element; (d) lists of every length 1..140 (thorough 300) drained by every number of front pops and 0..2 back pops, then grown again, all lookups at all probe points; reference: a plain slice with linear scans",
